@@ -166,3 +166,19 @@ package metrics
 //@   note no proof obligations: this contract only attaches the bounded stand-in
 //@   bounded metrics/mnamewalgroups_test.go Test_Bounded_MNameWalGroups one WAL file for every (shard, segment) pair over {0,1,2,3,11,12,21,23,111,112,211}^2 (121 files): 121 groups, each holding exactly its own file and its own ids
 //@ end
+
+// C09, open (unrotated) metrics block: same rule as search.blockWorker for
+// rotated blocks — a series' run is in arrival order, so it is read to its end
+// and exactly the samples inside the window are kept.
+//@ ghostdecl umbExhausted int
+//@ func SearchUnrotatedMetricsBlock
+//@   props C09
+//@   assumecalleerequires
+//@   ghostinit ghost(0, "umbExhausted") == 0
+//@   site callret tsitr.Next #1:
+//@     ghostset ghost(0, "umbExhausted") = ite(result, 0, 1)
+//@   site call tsitr.Err #1:
+//@     assert [series-run-is-read-to-its-end] ghost(0, "umbExhausted") == 1
+//@   site call series.AddEntry #1:
+//@     assert [only-samples-inside-the-window-are-kept] timeRange.StartEpochSec <= arg1 && arg1 <= timeRange.EndEpochSec
+//@ end
